@@ -237,6 +237,30 @@ pub fn scenario(idx: usize, seed: u64, reqs_per_task: usize) -> ScenarioResult {
                     (None, None) => return Some(format!("request '{beh}' of peer {p} entered the wrapped service but did not finish within {polls} polls")),
                 }
             }
+            // all of the peer's slots are usable again (with a large limit a few lost slots do not
+            // stop a sequential client): `limit` never-finishing requests all get in
+            let mut parked = Vec::new();
+            for _ in 0..limit {
+                let id = next_id.fetch_add(1, Ordering::SeqCst);
+                stats[5].fetch_add(1, Ordering::Relaxed);
+                stats[3].fetch_add(1, Ordering::Relaxed);
+                let mut f = Box::pin(s.ready().await.unwrap().call(req(id, Some(p), "never")));
+                for _ in 0..8 {
+                    if f.as_mut().poll(&mut cx).is_ready() {
+                        break;
+                    }
+                }
+                parked.push(f);
+            }
+            let g = sh.gauge[p].load(Ordering::SeqCst);
+            drop(parked);
+            if g != limit as i64 {
+                return Some(format!(
+                    "peer {p} has no request executing, yet only {g} of its {limit} slots can be used ({}); endings so far: {}",
+                    if block { "Block" } else { "ReturnError" },
+                    history.join(", ")
+                ));
+            }
         }
         None
     }));
@@ -477,7 +501,7 @@ pub fn run(ctx: &Ctx) -> i32 {
         tier,
         seed: ctx.seed,
         level: "exploration",
-        rule: "scenario = InflightLimitLayer(limit in {1,2,3,8,64}, Block|ReturnError) around a gauged service on a 4-worker tokio runtime; first a sequential, hand-polled phase (no clock): one request of one peer at a time ending in every possible way (ok/error after 0-7 yields, dropped unpolled, dropped inside the wrapped service), after each of which the next request must enter the wrapped service within its first polls and must not be refused; then 4-16 tasks share clones of the layered service (and services built from clones of the layer) and issue 1.5k (thorough 20k) requests each for 1-6 peers: finish after 0-7 yields, fail, or get cancelled after 0-5 polls (before the permit, while waiting for it, inside the call); the gauge is one fetch_add in the synchronous part of the inner call() whose return value is the observation (<= limit), a guard decrements on completion/error/drop; at quiescence gauges are 0; 400 fresh-peer rounds make 8 tasks fire at one brand-new peer at the same moment (barrier) so that the creation of a peer's bookkeeping is itself raced; a probe fills every peer with exactly `limit` never-finishing requests (the next is refused / keeps waiting) which also shows per-peer isolation; distinct by (mode, limit, limit reached, refusals seen, cancellations seen) The capacity probe at the quiescent point is decided on logical steps: probe futures are polled by hand (no-op waker, unconstrained) a fixed number of times, no clock.".into(),
+        rule: "scenario = InflightLimitLayer(limit in {1,2,3,8,64}, Block|ReturnError) around a gauged service on a 4-worker tokio runtime; first a sequential, hand-polled phase (no clock): one request of one peer at a time ending in every possible way (ok/error after 0-7 yields, dropped unpolled, dropped inside the wrapped service), after each of which the next request must enter the wrapped service within its first polls and must not be refused, and at the end of which all `limit` slots of the peer must be usable; then 4-16 tasks share clones of the layered service (and services built from clones of the layer) and issue 1.5k (thorough 20k) requests each for 1-6 peers: finish after 0-7 yields, fail, or get cancelled after 0-5 polls (before the permit, while waiting for it, inside the call); the gauge is one fetch_add in the synchronous part of the inner call() whose return value is the observation (<= limit), a guard decrements on completion/error/drop; at quiescence gauges are 0; 400 fresh-peer rounds make 8 tasks fire at one brand-new peer at the same moment (barrier) so that the creation of a peer's bookkeeping is itself raced; a probe fills every peer with exactly `limit` never-finishing requests (the next is refused / keeps waiting) which also shows per-peer isolation; distinct by (mode, limit, limit reached, refusals seen, cancellations seen) The capacity probe at the quiescent point is decided on logical steps: probe futures are polled by hand (no-op waker, unconstrained) a fixed number of times, no clock.".into(),
         assumptions: vec!["interleavings are those a 4-worker runtime produces; the over-limit probe waits 30 ms of real time".into()],
         summary,
         extra: Default::default(),
